@@ -721,8 +721,13 @@ func (ipcp *IPCPStateMachine) timeout() {
 		switch ipcp.state {
 		case IPCPStateClosing, IPCPStateStopping:
 			ipcp.sendTerminateRequest("Timeout")
-		case IPCPStateReqSent, IPCPStateAckRcvd, IPCPStateAckSent:
+		case IPCPStateReqSent, IPCPStateAckSent:
 			ipcp.sendConfigureRequest()
+		case IPCPStateAckRcvd:
+			// RFC 1661 TO+ in Ack-Rcvd: the retransmitted request has not been
+			// acknowledged, so the automaton is back in Req-Sent
+			ipcp.sendConfigureRequest()
+			ipcp.setState(IPCPStateReqSent)
 		}
 	} else {
 		switch ipcp.state {
